@@ -1,0 +1,129 @@
+//! Verification hooks.
+//!
+//! This module is only compiled with `--cfg brood_verif`. It contains nothing the library itself
+//! depends on; it lets an external test harness (a) take over the fork/join points of the
+//! scheduler and (b) read internal bookkeeping of a `World` without being able to modify it.
+
+extern crate std;
+
+use alloc::vec::Vec;
+
+/// A read-only copy of the internal bookkeeping of a `World`.
+///
+/// Pointers are reported as plain addresses and are never dereferenced while the dump is taken,
+/// with the exception of the identifier buffer owned by each archetype itself.
+#[derive(Clone, Debug, Default)]
+pub struct Dump {
+    /// The value of the `len` field of the world.
+    pub len: usize,
+    /// `(generation, Some((archetype identifier address, row)))` for every slot of the allocator.
+    pub slots: Vec<(u64, Option<(usize, usize)>)>,
+    /// The free list of the allocator, front to back.
+    pub free: Vec<usize>,
+    /// Every archetype table, in table iteration order.
+    pub archetypes: Vec<ArchetypeDump>,
+    /// Target identifier address of every entry of the `TypeId` lookup.
+    pub type_id_lookup: Vec<usize>,
+    /// `(key address, key length, target identifier address)` of every entry of the foreign
+    /// identifier lookup.
+    pub foreign_identifier_lookup: Vec<(usize, usize, usize)>,
+}
+
+/// A read-only copy of the bookkeeping of one archetype table.
+#[derive(Clone, Debug, Default)]
+pub struct ArchetypeDump {
+    /// The bytes of the identifier owned by the archetype.
+    pub identifier: Vec<u8>,
+    /// The address of the identifier buffer owned by the archetype.
+    pub identifier_address: usize,
+    /// The number of rows.
+    pub length: usize,
+    /// `(index, generation)` of the entity identifier stored for each row.
+    pub entity_identifiers: Vec<(usize, u64)>,
+    /// Capacity of the entity identifier column.
+    pub entity_identifiers_capacity: usize,
+    /// `(address, capacity)` of every component column.
+    pub columns: Vec<(usize, usize)>,
+}
+
+#[cfg(feature = "rayon")]
+pub use join::*;
+
+#[cfg(feature = "rayon")]
+mod join {
+    use super::std::{
+        cell::Cell,
+        thread_local,
+    };
+
+    /// A driver deciding how the two closures of a fork/join point of the scheduler are executed.
+    ///
+    /// The driver must call each of the closures exactly once before returning.
+    pub trait JoinDriver {
+        /// Execute both `rest` (the continuation of the scheduling) and `task` (the current task).
+        fn join(&self, rest: &mut dyn FnMut(), task: &mut dyn FnMut());
+    }
+
+    thread_local! {
+        static DRIVER: Cell<Option<*const (dyn JoinDriver + 'static)>> = const { Cell::new(None) };
+    }
+
+    /// Runs `f` with `driver` installed for fork/join points reached on the current thread.
+    pub fn with_join_driver<R>(driver: &dyn JoinDriver, f: impl FnOnce() -> R) -> R {
+        struct Restore(Option<*const (dyn JoinDriver + 'static)>);
+        impl Drop for Restore {
+            fn drop(&mut self) {
+                DRIVER.with(|cell| cell.set(self.0));
+            }
+        }
+        // SAFETY: The lifetime is erased only for the duration of this call; the previous value is
+        // restored before returning or unwinding.
+        let pointer: *const (dyn JoinDriver + 'static) =
+            unsafe { core::mem::transmute(driver as *const dyn JoinDriver) };
+        let _restore = Restore(DRIVER.with(|cell| cell.replace(Some(pointer))));
+        f()
+    }
+
+    /// Stand-in for the `rayon` crate at the fork/join points of the scheduler.
+    pub mod shim {
+        use super::DRIVER;
+
+        /// Same contract as `rayon::join`, but routed through the installed driver, if any.
+        pub fn join<A, B, RA, RB>(oper_a: A, oper_b: B) -> (RA, RB)
+        where
+            A: FnOnce() -> RA + Send,
+            B: FnOnce() -> RB + Send,
+            RA: Send,
+            RB: Send,
+        {
+            match DRIVER.with(|cell| cell.get()) {
+                None => ::rayon::join(oper_a, oper_b),
+                Some(driver) => {
+                    let mut oper_a = Some(oper_a);
+                    let mut oper_b = Some(oper_b);
+                    let mut result_a = None;
+                    let mut result_b = None;
+                    {
+                        let mut call_a = || {
+                            if let Some(oper) = oper_a.take() {
+                                result_a = Some(oper());
+                            }
+                        };
+                        let mut call_b = || {
+                            if let Some(oper) = oper_b.take() {
+                                result_b = Some(oper());
+                            }
+                        };
+                        // SAFETY: The driver outlives the `with_join_driver` call it was
+                        // installed by, which encloses this call.
+                        unsafe { &*driver }.join(&mut call_a, &mut call_b);
+                    }
+                    match (result_a, result_b) {
+                        (Some(result_a), Some(result_b)) => (result_a, result_b),
+                        _ => panic!("join driver did not run both closures"),
+                    }
+                }
+            }
+        }
+    }
+}
